@@ -279,11 +279,19 @@ def r4_verbatim(ctx, it):
     rm = [s for s in body_src if s.endswith('.removeErrorListeners()')]
     ctx.check(len(rm) >= 2, 'R4', it.loc, it.qualname, 'console-listeners-removed',
               'the console error listeners of lexer and parser are removed', f'removeErrorListeners calls: {rm}')
-    bail = any(isinstance(n, ast.Assign) and src(n.targets[0]).endswith('.errHandler') and 'BailErrorStrategy' in src(n.value)
+    real = any(isinstance(n, ast.Assign) and src(n.targets[0]).endswith('._errHandler') and 'BailErrorStrategy' in src(n.value)
                for n in walk_local(it.node))
-    ctx.check(bail, 'R4', it.loc, it.qualname, 'bail-out-strategy',
-              'the parser uses the bail-out strategy (no error recovery rewrites the cell)',
-              'the parser does not use BailErrorStrategy: ANTLR error recovery may insert/delete tokens and accept a malformed cell')
+    fake = any(isinstance(n, ast.Assign) and src(n.targets[0]).endswith('.errHandler') and 'BailErrorStrategy' in src(n.value)
+               for n in walk_local(it.node))
+    if real:
+        ctx.holds('R4', it.loc, it.qualname, 'the parser uses the bail-out strategy (parser._errHandler): no error recovery rewrites the cell')
+    else:
+        ctx.note('R4', it.loc, it.qualname,
+                 ('`parser.errHandler = BailErrorStrategy()` has no effect: the ANTLR runtime reads `_errHandler`, so the default strategy '
+                  'recovers and goes on; ' if fake else 'no bail-out strategy is installed; ') +
+                 'this does not break C12 - every syntax error is still notified to the collecting listener and the outcome is '
+                 'decided by the error count (R1) - but the stated belief "bail out" is false')
+    shared.plain_encodings_keep_verbatim_text(ctx, 'R4')
     # ErrorListener.syntaxError records every notification
     el = ctx.prog.func(f'{N.ERR_LISTENER}.ErrorListener.syntaxError')
     recorded = True
